@@ -46,9 +46,11 @@ Definition code_c02e (c : c02e_case) : Z * stage :=
   let sa := is_ok (wf_design d) in
   (if in_scope d && ma && negb sa then 4
    else if in_scope d && sa && frag_ok d && xinfo_ok (e_xinfo c) d && negb ma && negb (is_ename r) then 4
-   else if negb (Bool.eqb ma (e_proto c)) then (if Bool.eqb sa (e_proto c) then 2 else 1)
-   else if negb (Bool.eqb me (e_elab c)) then 2
-   else if negb ma && negb (where_ok s (e_where c)) then 5
+   (* outside the fragment the model is claimed for (e.g. references nested in slices / concatenations, which
+      Model/C01EElab.v does not follow) a disagreement of the MODEL proves nothing: only the specification judges there *)
+   else if negb (Bool.eqb ma (e_proto c)) then (if Bool.eqb sa (e_proto c) then (if in_scope d then 2 else 0) else 1)
+   else if in_scope d && negb (Bool.eqb me (e_elab c)) then 2
+   else if in_scope d && negb ma && negb (where_ok s (e_where c)) then 5
    else 0, s).
 
 Definition chk_c02e (c : c02e_case) : Z :=
